@@ -32,6 +32,7 @@ type MsgSpec struct {
 	Amount int64    `json:"amount,omitempty"`
 	Denom  string   `json:"denom,omitempty"` // send: default ugnot
 	To2    string   `json:"to2,omitempty"`   // multisend: second output (amount split in two)
+	File   string   `json:"file,omitempty"` // addpkg: file name (default <name>.gno)
 	Send   int64    `json:"send,omitempty"` // coins attached to call
 	MaxDep int64    `json:"maxdep,omitempty"`
 }
@@ -278,6 +279,8 @@ type Profile struct {
 	// FanBoost deploys four clone realms in the first block and makes 30% of
 	// the transactions fan-out messages that change several of them equally.
 	FanBoost bool
+	// OddBoost: a quarter of the transactions deploy packages made only of test-like files or use them.
+	OddBoost bool
 }
 
 // Gen produces a random history of nBlocks blocks.
@@ -335,6 +338,8 @@ func failTx(r *rand.Rand) TxSpec {
 func GenP(r *rand.Rand, seed uint64, nBlocks, maxTxs int, prof Profile) *History {
 	h := &History{Seed: seed}
 	deployed := []int{}
+	oddPkgs := []string{}
+	oddBlock := map[string]int{}
 	nextPkg := 0
 	for b := 0; b < nBlocks; b++ {
 		var blk []TxSpec
@@ -375,6 +380,40 @@ func GenP(r *rand.Rand, seed uint64, nBlocks, maxTxs int, prof Profile) *History
 			}
 			if prof.MoveBoost && r.IntN(100) < 40 {
 				blk = append(blk, TxSpec{Signer: pick(r, Users), Gas: 150_000_000, Fee: 1_000_000, Msgs: []MsgSpec{moveScript(r)}, Label: "move-script"})
+				continue
+			}
+			oddP := 5
+			if prof.OddBoost {
+				oddP = 25
+			}
+			if r.IntN(100) < oddP {
+				// packages made only of test-like files (must be refused the same way on every node), and
+				// later uses of whatever was accepted
+				var earlier []string // deployed in an earlier block (a restart may lie in between)
+				for _, op := range oddPkgs {
+					if oddBlock[op] < b {
+						earlier = append(earlier, op)
+					}
+				}
+				if len(earlier) > 0 && r.IntN(3) != 0 {
+					p := pick(r, earlier)
+					name := p[strings.LastIndex(p, "/")+1:]
+					if r.IntN(2) == 0 {
+						blk = append(blk, TxSpec{Signer: pick(r, Users), Gas: 60_000_000, Fee: 1_000_000, Label: "odd-pkg-call", Msgs: []MsgSpec{{Kind: "call", Pkg: p, Func: "Foo"}}})
+					} else {
+						blk = append(blk, TxSpec{Signer: pick(r, Users), Gas: 100_000_000, Fee: 1_000_000, Label: "odd-pkg-import", Msgs: []MsgSpec{{Kind: "run", Body: "package main\n\nimport \"" + p + "\"\n\nfunc main(cur realm) {\n\tprintln(" + name + ".Foo(cross(cur)))\n}\n"}}})
+					}
+				} else {
+					k := 700000 + nextPkg
+					nextPkg++
+					p := fmt.Sprintf("gno.land/r/verif/odd%d", k)
+					file := []string{"a_filetest.gno", "a_test.gno", "z_filetest.gno", "a_filetest.gno"}[r.IntN(4)]
+					if file != "a_test.gno" {
+						oddPkgs = append(oddPkgs, p)
+						oddBlock[p] = b
+					}
+					blk = append(blk, TxSpec{Signer: pick(r, Users), Gas: 200_000_000, Fee: 1_000_000, Label: "addpkg-only-" + file, Msgs: []MsgSpec{{Kind: "addpkg", Pkg: p, File: file, Body: fmt.Sprintf("package odd%d\n\nfunc Foo(cur realm) int { return %d }\n", k, r.IntN(9))}}})
+				}
 				continue
 			}
 			fanP := 7
@@ -529,7 +568,11 @@ func Resolve(c *chainsim.Chain, signer *chainsim.Account, m MsgSpec) std.Msg {
 		return msg
 	case "addpkg":
 		name := m.Pkg[strings.LastIndex(m.Pkg, "/")+1:]
-		msg := vm.NewMsgAddPackage(signer.Addr, m.Pkg, chainsim.Files(m.Pkg, map[string]string{name + ".gno": m.Body}))
+		fname := name + ".gno"
+		if m.File != "" {
+			fname = m.File
+		}
+		msg := vm.NewMsgAddPackage(signer.Addr, m.Pkg, chainsim.Files(m.Pkg, map[string]string{fname: m.Body}))
 		msg.MaxDeposit = maxDep
 		msg.Send = send
 		return msg
